@@ -115,6 +115,21 @@ def short_sequences(quick):
     return out
 
 
+def regex_sequences(quick):
+    """every sequence of <= L regex tokens (valid pieces, unknown escapes, pieces the regex lexer / parser reject), as a string and as a
+    `matches` operand; each compiled twice: strict escape checking off and on (which may only add warnings)"""
+    R = ["a", "b", "\\R", "\\w", "(", ")", "|", "*", "[z-a]", "[", "\\1", "{1,99999}", "{2,1}", ".", "\\x4", "\\q+"]
+    out = []
+    L = 3 if quick else 4
+    for n in range(1, L + 1):
+        for seq in itertools.product(R, repeat=n):
+            body = "".join(seq)
+            out.append(("seq-regex-string", n, "rule r { strings: $a = /" + body + "/ condition: $a }"))
+            if n < L or not quick:
+                out.append(("seq-regex-matches", n, "rule r { condition: \"ab\" matches /" + body + "/ }"))
+    return out
+
+
 CANARY_SRC = 'rule canary { strings: $a = "abcd" $r = /ab+c/ condition: $a and $r }'
 CANARY_BUF = b"xxabcdxx"
 
@@ -138,7 +153,7 @@ def run_chunk(arg):
     w = fresh()
     out = []
     for (seedname, ext, kind, pos, text) in items:
-        cmds = ["live", "compiler 0 arena=%d inc=1" % ARENA] + ["defc 0 %s %s %s" % (n, t, yv.hx(v) if t == "s" else v) for (n, t, v) in ext]
+        cmds = ["live", "compiler 0 arena=%d inc=1%s" % (ARENA, " strict=1" if kind.startswith("strict:") else "")] + ["defc 0 %s %s %s" % (n, t, yv.hx(v) if t == "s" else v) for (n, t, v) in ext]
         cmds += ["add 0 - " + yv.hx(text.encode("latin-1", "replace")), "getrules 0 0", "scan target=r0 via=mem ml=0 data=" + yv.hx(b"abcd abcd xx"), "scan target=r0 via=mem ml=0 data=-", "rdestroy 0", "cdestroy 0", "live",
                  "scan target=s6 via=mem ml=0 data=" + yv.hx(CANARY_BUF), "add 2 - " + yv.hx("rule post%d { condition: true }" % next_id(w)), "compiler 1 arena=%d" % ARENA, "add 1 - " + yv.hx(CANARY_SRC), "cdestroy 1"]
         try:
@@ -178,6 +193,9 @@ def run_chunk(arg):
         if sig is None and (can1.get("rc") != 0 or [m[0] for m in can1["t"]] != ["m", "fin"] or post["errors"] != 0 or can2["errors"] != 0):
             sig = "C07:other-compiler-or-scanner-affected"
         det.update(text=text[:3000], errors=add["errors"])
+        if not sig and seedname == "regex-sequences":
+            out.append((seedname, kind, pos, None, (add["errors"] > 0, repr((sc1.get("rc"), sc1.get("t"))) if add["errors"] == 0 else "", add["cb_warnings"], text)))
+            continue
         out.append((seedname, kind, pos, sig, det if sig else (add["errors"] > 0)))
     return out
 
@@ -223,16 +241,21 @@ def main():
             items.append((s["name"], s["ext"], kind, pos, text))
     for (kind, n, text) in short_sequences(quick):
         items.append(("short-sequences", [], kind, n, text))
+    for (kind, n, text) in regex_sequences(quick):
+        items.append(("regex-sequences", [], kind, n, text))
+        items.append(("regex-sequences", [], "strict:" + kind, n, text))
     # the seeds themselves must compile
     yv.worker_exe(VAR)
     cov = grammar_coverage(seeds())
     ck.cov["grammar_coverage_of_seeds"] = cov
     stats = dict(failed=0, compiled=0)
+    twins = {}
     seen_texts = set()
     uniq = []
     for it in items:
-        if it[4] in seen_texts: continue
-        seen_texts.add(it[4]); uniq.append(it)
+        key = (it[4], it[2].startswith("strict:"))
+        if key in seen_texts: continue
+        seen_texts.add(key); uniq.append(it)
     if ck.seed:
         import random; random.Random(ck.seed).shuffle(uniq)
     for res in yv.pmap(run_chunk, yv.chunked(uniq, 150), ck, prebuild=(VAR,)):
@@ -241,10 +264,25 @@ def main():
             if sig:
                 d = dict(det); d.update(seed=seedname, deviation=kind, position=pos)
                 ck.violation(sig, d)
+            elif seedname == "regex-sequences":
+                stats["failed" if det[0] else "compiled"] += 1
+                twins.setdefault(det[3], {})[kind.startswith("strict:")] = det
             else:
                 stats["failed" if det else "compiled"] += 1
                 if ck.cov["evaluations"] % 20011 == 0:
                     ck.sample(dict(seed=seedname, deviation=kind, position=pos, outcome="diagnosed error" if det else "compiled and scanned"))
+    # strict escape checking may add warnings, nothing else: same accept / reject decision, same scan results
+    npairs = 0
+    for text, pr in twins.items():
+        if len(pr) != 2: continue
+        npairs += 1
+        lax, strict = pr[False], pr[True]
+        if lax[0] != strict[0]:
+            ck.violation("C07:strict-escape-mode-changes-acceptance:%s" % ("invalid-regex-accepted-in-strict-mode" if lax[0] else "valid-regex-rejected-in-strict-mode"),
+                         dict(text=text, rejected_without_strict=lax[0], rejected_with_strict=strict[0], warnings_with_strict=strict[2]))
+        elif not lax[0] and lax[1] != strict[1]:
+            ck.violation("C07:strict-escape-mode-changes-scan-result", dict(text=text, without_strict=lax[1][:300], with_strict=strict[1][:300]))
+    ck.sub("regex-sequences:strict-vs-lax", pairs=npairs, note="every sequence of <=%d tokens of a 16-token regex alphabet (unknown escapes, lexer and parser errors) compiled with strict_escape off and on" % (3 if quick else 4))
     ck.cov["distinct_nontrivial"] = stats["failed"]
     ck.cov["outcomes"] = stats
     ck.cov["seeds"] = len(S)
